@@ -2,8 +2,9 @@
    The claims are judged through the verified validator Justify.vjust_cfg,
    which the check runs on the implementation's real annotated SSA graph of
    every explored definition (and which Model.Propagate is compared with). *)
-From Coq Require Import ZArith List Bool Znumtheory.
+From Coq Require Import ZArith List Bool Znumtheory String.
 Require Import Model.Base Model.Field Model.Ir Model.Propagate Model.Justify.
+Require Import Model.ConstCond Proofs.ConstCondProofs.
 Require Import Model.SsaCheck Spec.FieldSpec Spec.ValueSem Spec.SsaSpec Spec.SsaRun Proofs.ValueProofs Proofs.SsaRunProofs.
 Import ListNotations.
 Local Open Scope Z_scope.
@@ -31,8 +32,9 @@ Print Assumptions C06_claims_true_along_paths.
 
 (* and such executions do not get stuck at a phi: on a graph accepted by the SSA
    validator, whenever a version of the phi's variable arrives along the edge,
-   it is one of the phi's arguments (an edge that carries NO version is the
-   known finding C06-phi-missing-default) *)
+   it is one of the phi's arguments (an edge that carries NO version used to be the
+   finding C06-phi-missing-default, repaired in /repo 2b7419e: such an edge now
+   contributes the unversioned name, for which nothing is claimed) *)
 Theorem C06_phi_arguments_available : forall c idom pi i b L,
   ssa_check c idom = true -> path_from_entry c (pi ++ [i]) ->
   exec_path c (params_map (c_params c)) pi = Some L -> nth_error (c_blocks c) i = Some b ->
@@ -52,6 +54,35 @@ Theorem C06_constant_condition_claim_true : forall p c s0 s e v (b : bool),
 Proof. exact constant_condition_claim_true. Qed.
 Print Assumptions C06_constant_condition_claim_true.
 
+(* THE FINDING ITSELF (CS0009, constant_conditional.rs, mirrored by Model.ConstCond
+   and compared with the real pass on every explored definition): the reported
+   if statements are exactly those whose condition carries a boolean claim ... *)
+Theorem C06_constant_condition_findings_exact : forall c bi i b,
+  In (bi, i, b) (find_constant_conditional c) <->
+  exists blk k m e t f, In blk (c_blocks c) /\ b_index blk = bi /\ i = N.of_nat k /\
+                        nth_error (b_stmts blk) k = Some (SIf m e t f) /\ expr_val e = Some (VBool b).
+Proof. exact find_constant_conditional_exact. Qed.
+Print Assumptions C06_constant_condition_findings_exact.
+(* ... the label text says "always true" exactly for the claim true, "always false" exactly for false ... *)
+Theorem C06_constant_condition_label_true : forall b,
+  cc_label_message b = "This condition is always true."%string <-> b = true.
+Proof. exact cc_label_message_true. Qed.
+Print Assumptions C06_constant_condition_label_true.
+Theorem C06_constant_condition_label_false : forall b,
+  cc_label_message b = "This condition is always false."%string <-> b = false.
+Proof. exact cc_label_message_false. Qed.
+Print Assumptions C06_constant_condition_label_false.
+(* ... and on a validated graph a reported condition never takes the other truth value *)
+Theorem C06_constant_condition_finding_true : forall p c s0 s bi i b,
+  prime p -> 2 < p -> Z.log2 p < 2 ^ 64 ->
+  vjust_cfg p c = true ->
+  init_ok (all_stmts (c_blocks c)) p s0 -> reachable (all_stmts (c_blocks c)) p s0 s ->
+  In (bi, i, b) (find_constant_conditional c) ->
+  exists blk k m e t f, In blk (c_blocks c) /\ b_index blk = bi /\ i = N.of_nat k /\
+                        nth_error (b_stmts blk) k = Some (SIf m e t f) /\
+                        forall v, evalR p s e v -> (v <> 0 <-> b = true).
+Proof. exact constant_condition_finding_true. Qed.
+Print Assumptions C06_constant_condition_finding_true.
 (* Num2Bits/Bits2Num: a size claimed to be a constant below a bound is below it *)
 Theorem C06_size_claim_true : forall p c s0 s e v z bound,
   prime p -> 2 < p -> Z.log2 p < 2 ^ 64 ->
@@ -92,6 +123,14 @@ Definition ex_graph (claim : Z) : cfg :=
        b_stmts := [ SSubst ex_m ex_x1 OpVar (EInfix IAdd (ENum 2 (ex_k (Some (VField 2)))) (ENum 3 (ex_k (Some (VField 3)))) (ex_k (Some (VField 5))))
                            (Some (VField 5)) (Some TLocal);
                     SRet ex_m (EInfix IMul (EVar ex_x1 (ex_k (Some (VField 5)))) (ENum 2 (ex_k (Some (VField 2)))) (ex_k (Some (VField claim)))) ] |} ] |}.
+Example C06_finding_example :
+  find_constant_conditional
+    {| c_kind := KFunction; c_params := []; c_decls := [];
+       c_blocks := [ {| b_index := 0%N; b_depth := 0%N; b_preds := []; b_succs := [1%N];
+         b_stmts := [ SIf ex_m (EInfix IEq (ENum 2 (ex_k (Some (VField 2)))) (ENum 3 (ex_k (Some (VField 3)))) (ex_k (Some (VBool false)))) 1%N None;
+                      SIf ex_m (ENum 1 (ex_k (Some (VField 1)))) 1%N None ] |} ] |}
+  = [(0%N, 0%N, false)].
+Proof. vm_compute. reflexivity. Qed.
 Example C06_validator_accepts_and_rejects :
   vjust_cfg 7 (ex_graph 3) = true /\ vjust_cfg 7 (ex_graph 4) = false.
 Proof. vm_compute. split; reflexivity. Qed.
